@@ -6,7 +6,8 @@ From Coq Require Import ZArith QArith List Bool String.
 From KV Require Import Base.Sx Base.Str Gen.Generated Model.Prune Model.LostMap Proofs.C06P
                        Model.TimeFreq Proofs.TimeFreqP Model.TimeFreqPre Proofs.TimeFreqPreP
                        Model.TimeFreqVfw Proofs.TimeFreqVfwP Model.TimeFreqX Proofs.TimeFreqXP
-                       Model.TimeFreqCbf Proofs.TimeFreqCbfP.
+                       Model.TimeFreqCbf Proofs.TimeFreqCbfP Proofs.TimeFreqC07P.
+From KV Require Model.Chunks.
 Import ListNotations.
 Open Scope Q_scope.
 
@@ -439,3 +440,21 @@ Theorem C17_cbf_source_constants :
                   CbfStep "scale_factor_timestamp" (Some "f_engine_instrument") "_scale_factor_timestamp" false]%string.
 Proof. exact cbf_source_documented. Qed.
 Print Assumptions C17_cbf_source_constants.
+
+(* ---- clause 4: numeric sensor values ---- *)
+(* any per-dump quantity that is a function of the dump timestamp (respecting == of rationals; interpolating any list of
+   sensor samples onto the dump grid is one) has, on the preselected data set, the values it has on dumps a..b of the whole *)
+Theorem C17_preselect_sensor_values : forall (B : Type) (f : Q -> B) (eqB : B -> B -> Prop),
+  (forall x y, x == y -> eqB (f x) (f y)) ->
+  forall tm n a b j d, (a <= b <= n)%nat -> (j < b - a)%nat ->
+  eqB (nth j (map f (timestamps_pre tm a b)) d) (nth j (slice a b (map f (timestamps_full tm n))) d).
+Proof. intros B f eqB. exact (preselect_sensor_values f eqB). Qed.
+Print Assumptions C17_preselect_sensor_values.
+
+(* ---- the slice normalisation used here IS the one of the chunk-store model of C07 (written independently) ---- *)
+Theorem C17_slice_model_is_C07s : forall n a b st,
+  Chunks.norm_slice n (a, b) =
+    (fst (py_indices n (PSlice a b st)), Z.max (fst (py_indices n (PSlice a b st))) (snd (py_indices n (PSlice a b st)))) /\
+  (snd (Chunks.norm_slice n (a, b)) - fst (Chunks.norm_slice n (a, b)))%Z = take_len (py_indices n (PSlice a b st)).
+Proof. exact py_indices_is_c07_norm_slice. Qed.
+Print Assumptions C17_slice_model_is_C07s.
